@@ -642,7 +642,12 @@ def check_options(ctx):
     if vec and 'groupby' in unparse(vec[0].body[0]) and vec[0].orelse:
         ctx.holds(rule, ff, 'if self.vectorize: runs by endianness else one block per field', 'vectorize only changes the grouping', ff.node.lineno, clause='e')
     else:
-        ctx.violation(rule, ff, 'vectorize', 'the vectorize option does not select between runs and single-field blocks', ff.node.lineno, clause='e')
+        readers = [f_ for f_ in cg.methods.values() if f_.qual.split('.')[-1] != '__init__'
+                   and any(isinstance(n, ast.Attribute) and n.attr == 'vectorize' and isinstance(n.ctx, ast.Load) for n in ast.walk(f_.node))]
+        if readers:
+            ctx.undecided(rule, readers[0], 'vectorize is consulted by %s' % ', '.join(f_.qual.split('.')[-1] for f_ in readers), 'not in the form "if self.vectorize: runs by endianness else one block per field": cannot see what the option selects', readers[0].node.lineno, clause='e')
+        else:
+            ctx.violation(rule, ff, 'vectorize', 'the vectorize option does not select between runs and single-field blocks', ff.node.lineno, clause='e')
 
 
 def _is_position_name_field(fv):
